@@ -1,7 +1,7 @@
 """Own AST of Kconfig trees + renderer to canonical Kconfig text.  Independent of both repo parsers.
 
 Expressions are written as strings in Kconfig syntax and parsed by the small recursive-descent parser below into
-tuples:  ("sym", NAME) | ("lit", text) | ("not", e) | ("and", a, b) | ("or", a, b) | (relop, a, b)
+tuples:  ("sym", NAME) | ("lit", unquoted text) | ("str", quoted text) | ("not", e) | ("and", a, b) | ("or", a, b) | (relop, a, b)
 with relop in {"=", "!=", "<", "<=", ">", ">="}.
 """
 from dataclasses import dataclass, field
@@ -27,7 +27,7 @@ def parse_expr(s: Optional[str]):
         if m.group(1):
             toks.append(("op", m.group(1)))
         elif m.group(2) is not None:
-            toks.append(("lit", re.sub(r"\\(.)", r"\1", m.group(2))))
+            toks.append(("str", re.sub(r"\\(.)", r"\1", m.group(2))))
         else:
             t = m.group(3)
             if re.fullmatch(r"[A-Z][A-Z0-9_]*", t) or t in ("y", "n"):
@@ -88,7 +88,7 @@ def expr_syms(e, acc=None):
     if e[0] == "sym":
         if e[1] not in ("y", "n"):
             acc.add(e[1])
-    elif e[0] != "lit":
+    elif e[0] not in ("lit", "str"):
         for x in e[1:]:
             expr_syms(x, acc)
     return acc
